@@ -38,6 +38,15 @@ def classify(s):
 def judge_string(ctx, case, s, want):
     from curtsies.formatstring import FmtStr, fmtstr
     nontrivial = bool(want) and "\x1b" in s
+    if case.get("interrupt_at"):
+        # a Ctrl-C lands in the middle of parsing this very string (after another one has been
+        # parsed); asked again, the parser must still give the right answer
+        try:
+            FmtStr.from_str(case.get("parsed_before", "\x1b[32mother\x1b[39m text"))
+        except Exception:  # noqa
+            pass
+        if obs.interrupted_call(lambda: FmtStr.from_str(s), case["interrupt_at"]):
+            ctx.count("parses_interrupted_at_a_statement")
     for name, fn in (("from_str", FmtStr.from_str), ("fmtstr", fmtstr)):
         try:
             g = fn(s)
@@ -84,6 +93,8 @@ def rand_grammar(rng):
             parts.append(rng.choice(TEXTS))
         else:
             n = rng.choice([0, 1, 1, 1, 2, 3])
+            if rng.random() < .04:
+                n = rng.randint(4, 40)          # one sequence switching a great many things
             parts.append("\x1b[" + ";".join(str(rng.choice(CODES)) for _ in range(n)) + "m")
     return "".join(parts)
 
@@ -93,6 +104,7 @@ FIRST_STRING = "\x1b[1;31mfirst\x1b[0m \x1b[44mparse\x1b[49m"
 
 def _probe_strings():
     out = ["\x1b[%dmX\x1b[0mY" % c for c in CODES]
+    out = [FIRST_STRING] + out + [FIRST_STRING]
     out += ["\x1b[1;31;44mA\x1b[39mB\x1b[49mC\x1b[mD", "p\x1b[4mq\nr\x1b[0ms", "\x1b[32m\x1b[7mz\x1b[0m\x1b[39m"]
     return out
 
@@ -151,7 +163,11 @@ def run(ctx):
         run_case(ctx, {"spec": obs.rand_spec(rng, 5, 4, ALPHABET)})
         ctx.count("roundtrip_random")
     for _ in range(ctx.share(15000 if ctx.quick else 2000000)):
-        run_case(ctx, {"string": rand_grammar(rng)})
+        case = {"string": rand_grammar(rng)}
+        if rng.random() < .03:
+            case["interrupt_at"] = rng.randint(1, 60)
+            case["parsed_before"] = rand_grammar(rng)
+        run_case(ctx, case)
         ctx.count("grammar_strings")
     # long texts: escape sequences placed around typical buffer sizes
     for _ in range(ctx.share(60 if ctx.quick else 3000)):
